@@ -106,11 +106,9 @@ impl Iterator for SProbe {
         if me < 8 {
             IN_NEXT[me].store(true, Ordering::SeqCst);
         }
-        // the position is read when the call is entered and written back when it leaves with an element
-        // (a non-atomic sequential iterator); an exhausted call leaves without a second scheduled step
+        gate("next-exit");
         let p = PROBE_POS.load(Ordering::SeqCst);
         let r = if p < PROBE_LEN.load(Ordering::SeqCst) {
-            gate("next-exit");
             PROBE_POS.store(p + 1, Ordering::SeqCst);
             Some(p)
         } else {
